@@ -194,6 +194,9 @@ def run(ctx):
             res.check(has_bool(cb, c.bb, "T", r"is_ignore_errors_set\("), "R1.3", "get_matches_with|defaults-on-error|" + c.callee_q.rsplit("::", 1)[1], c.where(),
                       "env/defaults are added after a parse error only under ignore_errors", "env/defaults added after an error without the ignore_errors test")
 
+    # ---------------- R1.1b checked lemma behind the flat_map audit entries (shared with C12)
+    import lemmas
+    lemmas.flat_map_lockstep(fx, res, "R1.1")
     # ---------------- R1.4b worklist loops terminate
     GATED = {"clap_builder::builder::command::Command::unroll_args_in_group": "group members are argument ids (assert_app)"}
     nwl = 0
